@@ -559,7 +559,7 @@ func (fx *FX) loadGlobal(fr *frame, st *State, g *ssa.Global) Term {
 	gt := derefType(g.Type())
 	srt := w.SortOf(gt)
 	name := "GL_" + sanitize(fx.e.shortName(g.String()))
-	if fx.e.InitOnlyGlobals[g] {
+	if fx.e.InitOnlyGlobals[g] || g.Pkg == nil || !strings.HasPrefix(g.Pkg.Pkg.Path(), modPath) {
 		w.Declare(name, fmt.Sprintf("(declare-const %s %s)", name, srt))
 		t := T(name, srt)
 		if iv, ok := fx.e.GlobalInit[g]; ok {
@@ -588,6 +588,9 @@ func (fx *FX) execUnOp(fr *frame, st *State, t *ssa.UnOp) bool {
 		a := fx.addrOf(fr, st, t.X, t.Pos())
 		v := fx.load(fr, st, a, t.Pos())
 		rv := Val{T: fx.define(t.Name(), v), Typ: t.Type()}
+		if a.Kind != "cell" && a.Kind != "const" {
+			fx.assumeWF(st, rv.T, t.Type())
+		}
 		if _, isSig := t.Type().Underlying().(*types.Signature); isSig && a.Kind == "cell" {
 			// function values stored in local cells: keep closure identity if known
 			if c, ok := fr.cellClo[a.Alloc]; ok {
